@@ -134,7 +134,7 @@ def x_graph(g):
     for n in g.nodes:
         a = g.nodes[n]
         lab = a.get("label")
-        nodes.append([n, {"isStart": a.get("is_start"), "isFinal": a.get("is_final"),
+        nodes.append([n, {"isStart": a.get("is_start"), "isFinal": a.get("is_final"), "initialStack": a.get("initial_stack"),
                           "label": lab if isinstance(lab, (int, str)) and not isinstance(lab, bool) else None}])
     edges = [[u, v, d.get("label")] for u, v, d in g.edges(data=True)]
     return {"nodes": nodes, "edges": edges}
@@ -179,7 +179,7 @@ def perturb(g, rng):
     r = random.Random(rng)
     nodes = list(g.nodes)
     for _ in range(r.randint(0, 3)):
-        c = r.randrange(8)
+        c = r.randrange(9)
         if c == 0 and nodes:
             g.nodes[r.choice(nodes)].pop("is_final", None)
         elif c == 1 and nodes:
@@ -193,6 +193,10 @@ def perturb(g, rng):
         elif c == 5 and g.number_of_edges():
             u, v, k = r.choice(list(g.edges(keys=True)))
             g.edges[u, v, k].pop("label", None)
+        elif c == 8:
+            # a graph written before the attribute `initial_stack` existed
+            for n in nodes:
+                g.nodes[n].pop("initial_stack", None)
         elif c == 7 and g.number_of_edges():
             u, v, k = r.choice(list(g.edges(keys=True)))
             g.edges[u, v, k]["label"] = "junk"
@@ -237,12 +241,7 @@ def check_class(res, drv, name, build, extract, cls, export_op, import_op, paylo
     got = outcome(lambda: extract(cls.from_networkx(m.to_networkx())))
     res.evals += 1
     if got[0] != "ok":
-        scope = []
-        if name == "pda" and desc["startStack"] is None and "INITIAL_STACK_HIDDEN" in desc["states"] \
-                and "JSONDecodeError" in str(got[1]):
-            # KF-C20-1: without a start stack symbol the label of the state called INITIAL_STACK_HIDDEN is read as JSON
-            scope.append("hidden_stack_name")
-        res.violation(name + ".networkx", "round trip raised %s" % (got[1],), detail={"machine": desc}, scope=scope)
+        res.violation(name + ".networkx", "round trip raised %s" % (got[1],), detail={"machine": desc})
     elif c_machine(got[1], fields) != c_machine(desc, fields):
         diff = [f for f in fields if c_machine(got[1], [f]) != c_machine(desc, [f])]
         res.violation(name + ".networkx", "round trip changed %s" % diff, detail={"before": desc, "after": got[1]})
